@@ -305,6 +305,8 @@ package appencryption
 //@ iface Encryption.EncryptPayload
 //@   names ctx, data
 //@ iface Encryption.Close
+//@   modifies encclosed(this)
+//@   ensures encclosed(this) == old(encclosed(this)) + 1
 
 // ---- C02 / C14: a key is handed out only if its row is in the metastore (for every fault placement and
 // every interleaving of other processes at metastore-call granularity) ----
@@ -611,3 +613,122 @@ package appencryption
 //@   requires f != nil && f.Config != nil && f.Config.Policy != nil
 //@   ensures [C20:sessions-share-the-factory-s-system-key-cache] err == nil ==> result != nil && result.skCache == old(f.systemKeys) && istype(result.encryption, *envelopeEncryption) && dyn(result.encryption, *envelopeEncryption).skCache == old(f.systemKeys)
 //@   ensures [C20:shared-ik-cache-when-enabled] err == nil && old(f.Config.Policy.SharedIntermediateKeyCache) ==> dyn(result.encryption, *envelopeEncryption).ikCache == old(f.intermediateKeys)
+
+// ================= C16: cached sessions are shared, stay usable while held, are torn down once =================
+// encclosed(e): how many times Close has been called on Encryption e
+//@ ghost field encclosed(Encryption) int
+
+// a shared session's holder count, under its lock; the underlying session is torn down by Remove only
+//@ monitor (*sharedEncryption).mu
+//@   facet C16
+//@   cond cond
+//@   guards accessCounter
+//@   invariant [wired] this.mu != nil && this.cond != nil && this.Encryption != nil
+//@ immutable (sharedEncryption).mu, (sharedEncryption).cond, (sharedEncryption).Encryption
+
+//@ spec fn wfShared(s *sharedEncryption) bool = s != nil && s.mu != nil && s.cond != nil && s.Encryption != nil && valid(s.mu)
+
+//@ func (*sharedEncryption).incrementUsage
+//@   facet C16
+//@   safety C16
+//@   opt no-frame
+//@   opt old-at-acquire
+//@   requires wfShared(s) && *s.mu == 0
+//@   ensures [lock-released] *s.mu == 0
+//@   ensures [one-more-holder] s.accessCounter == old(s.accessCounter) + 1
+//@   ensures [taking-a-session-closes-nothing] encclosed(s.Encryption) == old(encclosed(s.Encryption))
+
+//@ func (*sharedEncryption).Close
+//@   facet C16
+//@   safety C16
+//@   opt no-frame
+//@   opt old-at-acquire
+//@   requires wfShared(s) && *s.mu == 0
+//@   ensures [lock-released] *s.mu == 0
+//@   ensures [one-holder-fewer] s.accessCounter == old(s.accessCounter) - 1
+//@   ensures [closing-a-shared-session-keeps-the-underlying-session] encclosed(s.Encryption) == old(encclosed(s.Encryption)) && err == nil
+
+//@ func (*sharedEncryption).Remove
+//@   facet C16
+//@   safety C16
+//@   opt no-frame
+//@   opt old-at-acquire
+//@   requires wfShared(s) && *s.mu == 0
+//@   loop 1 invariant [C16:waiting-under-the-lock] *s.mu == 2 && encclosed(s.Encryption) == old(encclosed(s.Encryption))
+//@   ensures [lock-released] *s.mu == 0
+//@   ensures [underlying-session-closed-exactly-once] encclosed(s.Encryption) == old(encclosed(s.Encryption)) + 1
+//@   ensures [torn-down-only-when-no-holder-is-left] s.accessCounter <= 0
+
+// the session cache's backing store (assumed here; C15 proves the generic cache): Set stores, other entries may leave
+//@ ghost field sdom(cache.Interface) set[string]
+//@ ghost field sval(cache.Interface) map[string]*Session
+//@ iface cache.Interface[string,*appencryption.Session].Get
+//@   names key
+//@   modifies sdom(this), sval(this)
+//@   ensures ret1 ==> old(sdom(this))[key] && result == old(sval(this))[key] && sdom(this)[key] && sval(this)[key] == result
+//@   ensures forall k string :: sdom(this)[k] ==> old(sdom(this))[k] && sval(this)[k] == old(sval(this))[k]
+//@ iface cache.Interface[string,*appencryption.Session].Set
+//@   names key, value
+//@   requires [C16:only-shared-sessions-are-cached] value != nil && istype(value.encryption, *sharedEncryption)
+//@   modifies sdom(this), sval(this)
+//@   ensures sdom(this)[key] && sval(this)[key] == value
+//@   ensures forall k string :: k != key && sdom(this)[k] ==> old(sdom(this))[k] && sval(this)[k] == old(sval(this))[k]
+//@ iface cache.Interface[string,*appencryption.Session].Len
+//@   pure
+//@ iface cache.Interface[string,*appencryption.Session].Close
+//@   modifies sdom(this), sval(this)
+
+// what the session cache expects of its loader: a session whose encryption is the shared wrapper
+//@ funcspec sharedSessionLoader
+//@   names id
+//@   opt no-frame
+//@   ensures err == nil ==> result != nil && valid(result) && istype(result.encryption, *sharedEncryption) && wfShared(dyn(result.encryption, *sharedEncryption)) && *dyn(result.encryption, *sharedEncryption).mu == 0
+//@   ensures err != nil ==> result == nil
+//@ funcfield (cacheWrapper).loader sharedSessionLoader
+
+//@ monitor (*cacheWrapper).mu
+//@   facet C16
+//@   havocs sdom(this.cache), sval(this.cache)
+//@   invariant [wired] this.cache != nil && this.loader != nil
+//@   invariant [every-cached-session-is-shared] forall k string :: sdom(this.cache)[k] ==> sval(this.cache)[k] != nil && valid(sval(this.cache)[k]) && istype(sval(this.cache)[k].encryption, *sharedEncryption) && wfShared(dyn(sval(this.cache)[k].encryption, *sharedEncryption))
+//@   invariant [no-session-lock-is-held-across-the-cache-lock] forall k string :: sdom(this.cache)[k] ==> *dyn(sval(this.cache)[k].encryption, *sharedEncryption).mu == 0
+//@ immutable (cacheWrapper).loader, (cacheWrapper).policy, (cacheWrapper).cache, (Session).encryption
+
+//@ func (*cacheWrapper).Get
+//@   facet C16
+//@   safety C16
+//@   opt no-frame
+//@   opt old-at-acquire
+//@   requires c != nil && c.mu == 0
+//@   ensures [lock-released] c.mu == 0
+//@   ensures [session-iff-no-error] (err == nil) == (result != nil)
+//@   ensures [cache-hit-returns-the-cached-session-itself] err == nil && ret(Get, 1, 1) ==> result == old(sval(c.cache)[id])
+//@   ensures [returned-session-is-held] err == nil ==> istype(result.encryption, *sharedEncryption) && dyn(result.encryption, *sharedEncryption).accessCounter == acq(dyn(result.encryption, *sharedEncryption).accessCounter) + 1
+//@   ensures [getting-a-session-closes-nothing] forall e Encryption :: !fresh(e) ==> encclosed(e) == old(encclosed(e))
+
+// the loader the session cache installs wraps a plain session exactly once
+//@ funcspec plainSessionLoader
+//@   names id
+//@   opt no-frame
+//@   ensures err == nil ==> result != nil && valid(result) && result.encryption != nil && (istype(result.encryption, *sharedEncryption) ==> wfShared(dyn(result.encryption, *sharedEncryption)) && *dyn(result.encryption, *sharedEncryption).mu == 0)
+//@ func newSessionCacheWithCache
+//@   facet C16
+//@   param loader plainSessionLoader
+//@   opt no-frame
+//@ func newSessionCacheWithCache$1
+//@   facet C16
+//@   safety C16
+//@   implements sharedSessionLoader
+//@   param loader plainSessionLoader
+//@   requires loader != nil
+
+// the evict callback hands the evicted session to Remove, in a goroutine of its own
+// spawned_Remove(s): how many `go s.Remove()` statements have run (ghost maintained by the verifier at go statements)
+//@ ghost field spawned_Remove(ref) int
+//@ func newSessionCache$1
+//@   facet C16
+//@   safety C16
+//@   opt no-frame
+//@   opt allow-go
+//@   requires v != nil && istype(v.encryption, *sharedEncryption) && wfShared(dyn(v.encryption, *sharedEncryption)) && *dyn(v.encryption, *sharedEncryption).mu == 0
+//@   ensures [evicted-session-is-handed-to-remove-once] spawned_Remove(dyn(v.encryption, *sharedEncryption)) == old(spawned_Remove(dyn(v.encryption, *sharedEncryption))) + 1
